@@ -224,6 +224,7 @@ class C18(Check):
         c["nu"] = rng.choice([1.0e-2, 3.0e-3, 5.0e-2])
         c["rho"] = rng.choice([1.0, 0.5, 2.0])
         c["init_sub"] = prng.sub_seed(rng)
+        c["flow_io"] = rng.choice(["convenience", "convenience", "plain"])
         c["time0"] = rng.choice([0.0, 0.0, 250.0, 1.0e4])  # restarted production runs start late
         c["vort_amp"] = rng.choice([2.0, 0.0, 5.0])
         if dim == 3:
@@ -574,7 +575,7 @@ class C18(Check):
                 del c["bodies"][i]
                 c["with_forcing"] = True
                 yield c
-        for key, val in (("prelude", None), ("free_stream_ramp", False), ("time0", 0.0), ("filter", None), ("free_stream", None), ("zone", 0), ("poisson", "greens"), ("vort_amp", 0.0), ("fresh_interpreter", False), ("same_process", False)):
+        for key, val in (("flow_io", "convenience"), ("prelude", None), ("free_stream_ramp", False), ("time0", 0.0), ("filter", None), ("free_stream", None), ("zone", 0), ("poisson", "greens"), ("vort_amp", 0.0), ("fresh_interpreter", False), ("same_process", False)):
             if key in program and program[key] != val:
                 c = copy.deepcopy(program)
                 c[key] = val
